@@ -287,6 +287,8 @@ func runC13(c *Check) {
 	c.rulePopMovesLastSavedHash("R14")
 	c.ruleLastHashGuards("R15")
 	c.ruleSavedHashMovesOnlyWithPop("R16")
+	c.ruleBlockFiledUnderOwnHash("R17")
+	c.ruleRequestFilledWhereFound("R18")
 	c.ruleFilledRequestsGoOut("R12", "handlers.(*HeadersHandler).Handle", "spynode.(*Node).processBlocks")
 	c.ruleRemovedRangeIsCountedRange("R2", a.blocksRequested, a.pendingBlockSize)
 
